@@ -228,6 +228,12 @@ class H1Conn(Peer):
         self.closed_by_client = False
         self.tls = []
 
+    def _mc_state(self):
+        p = self.parser
+        cur = p.cur
+        return ("h1conn", p.state, bytes(p.buf), p.remaining, len(p.requests), None if cur is None else (cur.head_complete, len(cur.body)),
+                self.responses_sent, self.closed_by_client, len(self.reuse_violations), len(p.errors), self.respond_at)
+
     def on_connect(self, tr):
         self.tr = tr
         self.server.conns.append(self)
@@ -330,6 +336,10 @@ def make_echo_responder(framing="cl"):
 class ScriptConn(Peer):
     """Sends a fixed byte script once the first request is complete (or at once)."""
 
+    def _mc_state(self):
+        p = self.parser
+        return ("script", self.sent, p.state, bytes(p.buf), p.remaining, len(p.requests))
+
     def __init__(self, script: bytes, eof: bool, when="complete", alpn=None):
         self.script = script
         self.eof = eof
@@ -370,6 +380,10 @@ class ProxyConn(Peer):
     """HTTP proxy connection: answers CONNECT (then tunnels to an inner peer made by
     `router`), or serves absolute-form requests as a forwarding proxy through
     `forward_responder`."""
+
+    def _mc_state(self):
+        p = self.parser
+        return ("proxyconn", p.state, bytes(p.buf), self.inner, self.fwd, self.refused, self.tunnel_target)
 
     def __init__(self, proxy):
         self.proxy = proxy
@@ -483,6 +497,9 @@ class HTTPProxy:
 
 class Socks5Conn(Peer):
     """States: greeting -> [auth] -> request -> tunnel | failed."""
+
+    def _mc_state(self):
+        return ("socksconn", self.state, bytes(self.buf), self.inner, len(self.errors))
 
     def __init__(self, proxy):
         self.proxy = proxy
